@@ -94,6 +94,65 @@ def checksum_shard(arg):
     return sh.dict()
 
 
+# --------------------------------------------------------------------------
+# independent reading of semver versions and of the requirement forms used below (Cargo's semantics, as the semver crate implements them)
+
+def sv_parse(v):
+    core, _, build = v.partition("+")
+    core, _, pre = core.partition("-")
+    ma, mi, pa = (int(x) for x in core.split("."))
+    return (ma, mi, pa, tuple(pre.split(".")) if pre else None, build)
+
+
+def _pre_key(pre):
+    # no pre-release sorts after any pre-release; identifiers: numeric < alphanumeric, numeric by value, alphanumeric by ASCII
+    if pre is None:
+        return (1,)
+    return (0,) + tuple((0, int(x), "") if x.isdigit() else (1, 0, x) for x in pre) + ((-1, 0, ""),) * 0
+
+
+def sv_key(v):
+    ma, mi, pa, pre, build = sv_parse(v)
+    key = [ma, mi, pa]
+    if pre is None:
+        return (ma, mi, pa, 1, ())
+    ids = tuple((0, int(x), "") if x.isdigit() else (1, 0, x) for x in pre)
+    return (ma, mi, pa, 0, ids)
+
+
+def sv_matches(req, v):
+    ma, mi, pa, pre, _ = sv_parse(v)
+    if req == "*":
+        return pre is None
+    op = "".join(ch for ch in req if ch in "<>=^~")
+    rest = req[len(op):]
+    rcore, _, rpre = rest.partition("-")
+    parts = [int(x) for x in rcore.split(".")]
+    full = parts + [0] * (3 - len(parts))
+    if pre is not None and not (rpre and full == [ma, mi, pa] and len(parts) == 3):
+        return False            # a pre-release only matches a comparator that names the same triple with a pre-release tag
+    cmp_v = sv_key(v)
+    low = sv_key("%d.%d.%d%s" % (full[0], full[1], full[2], "-" + rpre if rpre else ""))
+    if op == ">=":
+        return cmp_v >= low
+    if op == "<":
+        return cmp_v < low
+    if op == "=":
+        return cmp_v == low if len(parts) == 3 else (ma, mi)[:len(parts)] == tuple(parts)
+    if op == "~":
+        hi = (full[0], full[1] + 1, 0, 0, ()) if len(parts) >= 2 else (full[0] + 1, 0, 0, 0, ())
+        return low <= cmp_v < hi
+    if op == "^":
+        if full[0] > 0 or len(parts) == 1:
+            hi = (full[0] + 1, 0, 0, 0, ())
+        elif full[1] > 0 or len(parts) == 2:
+            hi = (0, full[1] + 1, 0, 0, ())
+        else:
+            hi = (0, 0, full[2] + 1, 0, ())
+        return low <= cmp_v < hi
+    raise ValueError(req)
+
+
 def roundtrip_shard(arg):
     seed, idxs = arg
     sh = vp.Shard()
@@ -135,6 +194,14 @@ def roundtrip_shard(arg):
                 same = [i for i, a in enumerate(arts) if a["os"] == q["os"] and a["arch"] == q["arch"]]
                 if pos is not None and pos not in same:
                     sh.violation("resolve:semver:wrong-platform", "resolve(%r) returned artifact %r of another os/arch" % (q, arts[pos]), case)
+                    continue
+                matching = [i for i in same if sv_matches(q["req"], arts[i]["version"])]
+                if (pos is None) != (not matching):
+                    sh.violation("resolve:semver:%s" % ("missed" if pos is None else "no-match"), "resolve(%r) returned %s although the artifacts matching os, arch and requirement are %r"
+                                 % (q, "nothing" if pos is None else arts[pos]["version"], [arts[i]["version"] for i in matching]), case)
+                elif pos is not None and (pos not in matching or any(sv_key(arts[i]["version"]) > sv_key(arts[pos]["version"]) for i in matching)):
+                    sh.violation("resolve:semver:%s" % ("not-matching" if pos not in matching else "not-maximal"), "resolve(%r) returned %s; matching artifacts: %r"
+                                 % (q, arts[pos]["version"], [arts[i]["version"] for i in matching]), case)
             if len(arts) >= 3:
                 sh.nontrivial.add(("rt", len(arts), len({a["version"] for a in arts}), any(not a["url"].isascii() for a in arts)))
                 sh.sample({"kind": "toml round trip", "artifacts": len(arts), "text_head": rep["text"][:200]}, cap=1)
